@@ -16,12 +16,23 @@ def oracle(c, real):
     return R.oracle_names(c["input"], c["ptx"], real, single_hap=(c["kind"] != "tagged2"), bpt_s=c["bpt"])
 
 KW = {"tagged": {"paint": 0.85}}
-CLASSIFY = None
+def CLASSIFY(c, real, msg):
+    """F20: in a multi-haplotype map the homologues of a name-tagged chromosome share the tag, and their FalseDuplicate / Contaminant
+    pieces are all named after it: duplicate names in the false-duplicates / contaminants assembly"""
+    import re
+    m = re.search(r"duplicate scaffold names in assembly '(FalseDuplicate|Contaminant)': \[(.*)\]", msg)
+    if m and "ok" in real:
+        dups = set(re.findall(r"'([^']+)'", m.group(2)))
+        nametags = {t for ps in c["ptx"] for f in ps["rows"] if f["t"] == "F" for t in f["tags"] if R.is_chr_tag(t)}
+        haps = {t for ps in c["ptx"] for f in ps["rows"] if f["t"] == "F" for t in f["tags"] if t not in R.KNOWN and not R.is_chr_tag(t)}
+        if len(haps) >= 2 and dups and dups <= nametags:
+            return "F20-homologues-share-name-in-tagged-assembly"
+    return None
 
 
 def streams(ctx):
     n = 8 if ctx.thorough else 1
-    return [("tagged", "tagged", 700 * n), ("tagged-2hap", "tagged2", 200 * n), ("homologous-groups", "twohap", 200 * n), ("tagged-slivers", "slivers", 150 * n), ("unloc-rich", "unlocs", 300 * n), ("untagged", "script", 150 * n)]
+    return [("tagged", "tagged", 700 * n), ("tagged-2hap", "tagged2", 200 * n), ("homologous-groups", "twohap", 200 * n), ("tagged-slivers", "slivers", 150 * n), ("unloc-rich", "unlocs", 300 * n), ("homologues-share-name-tag", "homtag", 120 * n), ("untagged", "script", 150 * n)]
 
 
 def gen(ctx, kind):
